@@ -622,12 +622,12 @@ func EVAL(ctx context.Context, ast MalType, env EnvType) (res MalType, e error) 
 					if ast == nil {
 						return nil, lisperror.NewLispError(e, nil)
 					}
-					switch v := ast.(List).Val[0].(type) {
-					case Symbol:
-						return nil, lisperror.NewLispError(fmt.Errorf("%s (around %s)", e, v.Val), ast)
-					default:
-						return nil, lisperror.NewLispError(e, ast)
+					if body, ok := ast.(List); ok && len(body.Val) > 0 {
+						if v, ok := body.Val[0].(Symbol); ok {
+							return nil, lisperror.NewLispError(fmt.Errorf("%s (around %s)", e, v.Val), ast)
+						}
 					}
+					return nil, lisperror.NewLispError(e, ast)
 				}
 			} else {
 				fn, ok := f.(Func)
